@@ -17,9 +17,7 @@ From OmegaGen Require Import FixpointGen Gr1Gen.
 def prove(ctx):
     with ctx.coq_lock():
         gen_games.ensure_gr1(ctx)
-        ctx.prove('GenProofs/FixpointProofs.v')
-        ctx.prove('GenProofs/StreettProofs.v')
-        ctx.prove('Properties/C01.v')
+        ctx.prove_with_deps('Properties/C01.v')
     ctx.trusted.append(
         'translator tie T: omega/games/gr1.py (solve_streett_game, '
         '_attractor_under_assumptions) and omega/symbolic/fixpoint.py '
@@ -43,6 +41,28 @@ def run_impl(g):
     return out
 
 
+def run_reused(g, moore, plus_one):
+    """Solve on an automaton that was already used with the two players in
+    the other roles (history must not matter): returns the region, indexed
+    as in the role-swapped arena."""
+    import omega.games.gr1 as gr1
+    from props import c04
+    ar = g['ar']
+    aut = gr1games.load(g)
+    aut.moore, aut.plus_one = moore, plus_one
+    gr1.solve_streett_game(aut)            # first use, original roles
+    d = c04.dual_game(g, complement=False)
+    env, sys_ = list(aut.varlist['env']), list(aut.varlist['sys'])
+    aut.varlist['env'], aut.varlist['sys'] = sys_, env
+    aut.action['env'], aut.action['sys'] = aut.action['sys'], aut.action['env']
+    z, _, _ = gr1.solve_streett_game(aut)  # second use, roles exchanged
+    ztab = d['swap1'](ar.table1(z), False)
+    # restore
+    aut.varlist['env'], aut.varlist['sys'] = env, sys_
+    aut.prime_varlists()
+    return d, ztab
+
+
 def coq_group(i, g, impl):
     ar = g['ar']
     n = f'{ar.nc} {ar.nx} {ar.ny}'
@@ -60,7 +80,17 @@ def coq_group(i, g, impl):
             f'eq3 (tt3 {n} (snd (fst t))) {games.litn(yij)} && '
             f'eq4 (tt4 {n} (snd t)) {games.litn(xijk)}) ({call})')
         keys.append((moore, plus_one))
-    return (gr1games.coq_defs(p, g), terms), keys
+    defs = gr1games.coq_defs(p, g)
+    if 'reused' in g:
+        (moore, plus_one), d, ztab = g['reused']
+        dar = d['ar']
+        dn = f'{dar.nc} {dar.nx} {dar.ny}'
+        defs += '\n' + gr1games.coq_defs(p + 'd', d)
+        call = (f'Gr1Gen.solve_streett_game {dn} {p}dE {p}dS {p}dP {p}dR '
+                f'{b(moore)} {b(plus_one)} {fuel}')
+        terms.append(f'eq1 (tt1 {dn} (fst (fst ({call})))) {games.litn(ztab)}')
+        keys.append(('reused-after-role-swap', moore, plus_one))
+    return (defs, terms), keys
 
 
 def oracle_check(g, impl):
@@ -77,6 +107,20 @@ def oracle_check(g, impl):
                 f'(moore={moore}, plus_one={plus_one})',
                 dict(gr1games.case_of(g), moore=moore, plus_one=plus_one),
                 expected=exp, got=z)
+    # history: the same automaton object re-used with the players' roles
+    # exchanged must give the region of the exchanged game
+    for moore, plus_one in MODES[1:3]:
+        d, ztab = run_reused(g, moore, plus_one)
+        exd = gr1games.Explicit(d)
+        exp = exd.table(exd.streett(moore, plus_one))
+        if exp != ztab:
+            return Failing(
+                'solve_streett_game on an automaton re-used after the players '
+                f'exchanged roles (moore={moore}, plus_one={plus_one}) returns '
+                'a region different from the exchanged game\'s',
+                dict(gr1games.case_of(g), moore=moore, plus_one=plus_one,
+                     scenario='reused-after-role-swap'),
+                expected=exp, got=ztab)
     return None
 
 
@@ -92,6 +136,9 @@ def correspond(ctx):
                                max_states)
         try:
             impl = run_impl(g)
+            if i % 2 == 0:
+                mode = MODES[(i // 2) % 4]
+                g['reused'] = (mode,) + run_reused(g, *mode)
         except Exception as e:
             return [Mismatch('solver raised', gr1games.case_of(g),
                              impl=repr(e), property_fails=True)]
@@ -114,9 +161,13 @@ def correspond(ctx):
         if not ok:
             mism.append(Mismatch(
                 'solve_streett_game (region or iterates) differs from the '
-                'translated model', dict(gr1games.case_of(gs[i]),
-                                         moore=k[0], plus_one=k[1]),
-                impl=impls[i][k][0]))
+                'translated model' + (' on an automaton re-used after the '
+                                      'players exchanged roles'
+                                      if k[0] == 'reused-after-role-swap'
+                                      else ''),
+                dict(gr1games.case_of(gs[i]), moore=k[-2], plus_one=k[-1],
+                     scenario=str(k[0])),
+                impl=(impls[i][k][0] if k in impls[i] else None)))
     # the explicit oracle is exercised on every run as well
     for g, impl in list(zip(gs, impls))[:8]:
         f = oracle_check(g, impl)
